@@ -1050,6 +1050,21 @@ def check_forest(case, R):
                 ok = ok and call(R, name, kbase, lambda: f"{name} ({fn.__name__}) geometry={geom} on\n{before.to_string()}", fn, df)[0]
             if ok:
                 judge(R, name, kbase, p, rows, df, extra, repaired or not multi, geom, mode)
+        # re-base first, repair afterwards (what a caller does who read the file with fix_roots=False and decides later), on the frame
+        # as given and on a frame whose ROWS ARE NOT IN ID ORDER (rows reversed: ids descend) - the frames pass from one helper to the next
+        n = len(p)
+        p_rev = [-1 if p[n - 1 - k] == -1 else n - 1 - p[n - 1 - k] for k in range(n)]
+        rows_rev = [rows[n - 1 - k] for k in range(n)]
+        for tag, pp, rr, frame in (("", p, rows, make_df(p, rows, base, extra)),
+                                   (":rows-not-in-id-order", p_rev, rows_rev, make_df(p, rows, base, extra).iloc[::-1].reset_index(drop=True))):
+            for rname, rfn, mode in (("mark_roots_as_somas", su.mark_roots_as_somas, "somas"), ("link_roots_to_nearest", su.link_roots_to_nearest, "nearest")):
+                name = f"reset_index->{rname}{tag}"
+                ok, step1 = call(R, name, kbase, lambda: f"{name} (reset_index) geometry={geom} on\n{frame.to_string()}", su.reset_index, frame)
+                if not ok:
+                    continue
+                ok, out = call(R, name, kbase, lambda: f"{name} ({rname}) geometry={geom} on\n{step1.to_string()}", rfn, step1)
+                if ok and hasattr(out, "columns"):
+                    judge(R, name, kbase, pp, rr, out, extra, True, geom, mode)
 
 
 # =============================================================================== spaces
